@@ -18,6 +18,8 @@ Oracle (independent of spsdk; vf.ref.rom_mbi reads the exported bytes only):
   C01.emitted-*           application, TrustZone block, relocation entries, key store, firmware
                           version, certificate-block fields found in the bytes are the configured ones
   C01.parse-fails         MasterBootImage.parse raises on an image SPSDK just exported
+  C01.parse-key-source    an image encrypted with the user key itself (empty key store) is decrypted by
+                          parse() with the OTP-derived key
   C01.app-roundtrip / C01.settings-roundtrip / C01.class-roundtrip   parse gives back payload, settings
   C01.reexport            parsed object + same keys re-exports identically outside the signature
   C01.config-reload / C01.config-reexport   create_config() -> load -> export, same
@@ -25,7 +27,6 @@ Oracle (independent of spsdk; vf.ref.rom_mbi reads the exported bytes only):
 """
 from __future__ import annotations
 
-import hashlib
 import json
 import os
 import re
@@ -50,8 +51,10 @@ def workdir() -> str:
 
 def quiet() -> None:
     import logging
+    import warnings
 
     logging.disable(logging.CRITICAL)
+    warnings.simplefilter("ignore")  # cryptography warns about odd serial numbers in corrupted certificates
 
 
 def msg_key(msg: str) -> str:
@@ -81,17 +84,18 @@ def judge(case: dict, ob: dict) -> list:
     img = ob["image"]
     pay = exp["payload"]
     app_al = M.align4(pay)
-    szc = M.size_class(t, len(app_al))
     lookalike = (case["content"].startswith("reloc-like") and M.has(t, "RelocTable")
                  and len(pay) % 4 == 0 and len(pay) >= 0x48)
     rl = "cfg" if exp.get("reloc") else "lookalike" if lookalike else "none"
 
     # ---- (c) the independent reader and the header words -------------------------------------
     r = None
+    malformed = ""
     try:
         r = M.rom_read(ob, verify=False)
     except Reject as e:
-        V.append(("C01.rom-structure", f"{tag};{e.stage}{szc}", str(e)))
+        V.append(("C01.rom-structure", f"{tag};{e.stage}", str(e)))
+        malformed = e.stage
     regions = r["regions"] if r else []
     if r and facts["kind"] == "ivt":
         h = r["hdr"]
@@ -114,7 +118,7 @@ def judge(case: dict, ob: dict) -> list:
         if r["class"] == "crc" and r["crc_computed"] != h["word28"]:
             V.append(("C01.header-crc", tag, f"word 0x28 = {h['word28']:#x}, CRC of the bytes {r['crc_computed']:#x}"))
         if "app" in r and M.mask_words(r["app"]) != M.mask_words(app_al):
-            V.append(("C01.emitted-app", f"{tag};reloc={rl}{szc}",
+            V.append(("C01.emitted-app", f"{tag};reloc={rl}",
                       f"application in the image ({len(r['app']):#x} B) is not the payload ({len(app_al):#x} B)"))
         if "tz" in r and r["tz"] != (exp.get("tz") or b""):
             V.append(("C01.emitted-tz", tag, "TrustZone block in the image differs from the configured preset"))
@@ -130,13 +134,25 @@ def judge(case: dict, ob: dict) -> list:
         V += _cert_fields(tag, r, exp)
 
     # ---- (a) parse ---------------------------------------------------------------------------
+    if malformed:
+        # the header words do not describe the bytes (reported above): what parse() makes of such an
+        # image is a consequence, not a second finding
+        return core.dedupe(V)
     if "parse_error" in ob:
         e = ob["parse_error"]
-        V.append(("C01.parse-fails", f"{e['type']}@{e['where']}{szc}" + (";reloc-lookalike" if lookalike else ""),
+        V.append(("C01.parse-fails", f"{e['type']}@{e['where']}" + (";reloc-lookalike" if lookalike else ""),
                   f"[{tag}] " + e["msg"]))
         return core.dedupe(V)
     pr = ob["parsed"]
     bl = ob["built"]
+    if case["auth"] == "encrypted" and exp.get("key_store") == b"":
+        # key source KEYSTORE with an empty key store: the image key is the user key itself, but the
+        # image cannot say so and parse() has no parameter for it -> one clause, nothing downstream
+        if M.mask_words(pr["app"][:0x20]) != M.mask_words(M.expected_app(pay)[:0x20]):
+            V.append(("C01.parse-key-source", "encrypted;empty key store",
+                      "parse() decrypts with the OTP-derived key; the image was encrypted with the user key "
+                      "(key source KEYSTORE, key store empty)"))
+        return core.dedupe(V)
     mism: list = []
     if facts["kind"] == "ivt":
         want_app = M.expected_app(pay)
@@ -342,7 +358,7 @@ def w_case(case: dict) -> dict:
     viol = judge(case, ob)
     res: dict[str, Any] = {"viol": viol, "count": {}, "status": ob["status"]}
     if ob["status"] == "ok":
-        res["distinct"] = [hashlib.sha1(ob["image"]).hexdigest()[:16]]
+        res["distinct"] = [M.stable_token(ob)]
         res["count"]["accepted"] = 1
         if "parsed" in ob:
             res["count"]["parsed"] = 1
@@ -382,6 +398,9 @@ def structural_cases(ctx, lengths=None, contents=None) -> list:
         for t in M.triples(fam):
             for L in lengths:
                 for c in contents:
+                    if (ctx.tier == "quick" and c.startswith("reloc-like") and L != 0x200
+                            and not M.has(t, "RelocTable")):
+                        continue  # quick: classes without relocation-table code see the look-alike at one length
                     case = {"fam": fam, "rev": "latest", "tgt": t["tgt"], "auth": t["auth"], "len": L,
                             "content": c, "opts": {}, "seed": ctx.seed}
                     if L == 0x40 and c == "counter":
@@ -429,7 +448,9 @@ def run(ctx) -> None:
     k = 1 if quick else 2
     table = DimTable()
     ctx.rule = ("structural product: every (family, target, authentication) triple of the database x "
-                f"{len(M.LENGTHS)} payload-length classes x {len(M.CONTENTS)} content classes at the base option set, "
+                f"{len(M.LENGTHS)} payload-length classes x {len(M.CONTENTS)} content classes at the base option set "
+                "(quick: the two relocation-table look-alike contents at every length only for classes with "
+                "relocation-table code, at length 0x200 for the others), "
                 "every further revision at the base payload; option lattice: all option sets with <= "
                 f"{k} departures (+ full product of the certificate dimensions in thorough) on "
                 f"{'one representative' if quick else 'up to three representatives'} of every equivalence class; "
@@ -454,11 +475,13 @@ def run(ctx) -> None:
     for case, res in ctx.pool_map(w_case, cases, timeout=60, chunksize=8):
         if not ctx.absorb(case, res):
             continue
-        if res.get("status") == "rejected":
+        if res.get("status") == "rejected" and case["len"] == 0x200 and case["content"] == "counter":
             rejected_base.append((case["fam"], case["tgt"], case["auth"], res.get("reject")))
         if "class_key" in res:
             classes.setdefault(res["class_key"], []).append((case["fam"], case["tgt"], case["auth"]))
     if rejected_base:
+        # the base case proper (0x200-byte counter payload, default options) must build for every triple;
+        # a builder that refuses other structural cases (e.g. very short payloads) is counted, not judged
         raise core.HarnessError(f"base configuration rejected by the builder: {rejected_base[:5]}")
     ctx.count("structural_cases", len(cases))
     for c in cases[:2] + cases[-2:]:
